@@ -288,7 +288,11 @@ func ExploreScenario(seed int64, p Profile, x *Explorer) {
 		}
 		ref := func(n int) absval.V { return absval.V{K: 'r', N: n} }
 		prim := func() absval.V { return absval.V{K: 'p', N: x.fresh()} }
-		switch x.R.Intn(5) {
+		switch x.R.Intn(6) {
+		case 5: // a collection that gains references to a resource whose own child is still loading
+			x.Truth[name(0)] = &gw.Content{L: absval.List{prim()}}
+			x.Truth[name(1)] = mk(ref(3))
+			x.Truth[name(2)] = mk(ref(4), prim())
 		case 0: // two paths to 3, and a parent of 3 that is still loading (4 is slow)
 			x.Truth[name(0)] = mk(ref(2), ref(3))
 			x.Truth[name(1)] = mk(ref(3), ref(4))
@@ -318,6 +322,35 @@ func ExploreScenario(seed int64, p Profile, x *Explorer) {
 		}
 		direct := map[string]int{}
 		steps := 6 + x.R.Intn(6)
+		if c0 := x.Truth[name(0)]; !c0.IsModel && len(c0.L) == 1 {
+			// the collection gains a reference to a resource whose own child is still loading, and that resource changes
+			// while it waits: the events held for it may only follow the add event that hands it over
+			x.sendFrame(A, "subscribe", 0, "")
+			direct[A.Label+" "+name(0)]++
+			x.settle()
+			addRef := func(t int) {
+				cont := x.Truth[name(0)]
+				idx := x.R.Intn(len(cont.L) + 1)
+				v := ref(t)
+				cont.L = append(cont.L[:idx:idx], append(absval.List{v}, cont.L[idx:]...)...)
+				x.Run.Do(gw.Action{A: "event", Subj: "event." + name(0), Ev: "add", Text: `{"idx":` + strconv.Itoa(idx) + `,"value":` + v.JSON() + `}`,
+					Abs: "0\tadd\t" + strconv.Itoa(idx) + "\t" + v.String()})
+			}
+			addRef(2)
+			x.internalSteps(2 + x.R.Intn(6))
+			for k := 1 + x.R.Intn(3); k > 0; k-- {
+				if x.R.Intn(2) == 0 {
+					x.changeEvent(2)
+				} else {
+					x.customEvent(2)
+				}
+				x.internalSteps(x.R.Intn(4))
+			}
+			if x.R.Intn(2) == 0 {
+				x.slowR = -1
+			}
+			steps = 2 + x.R.Intn(4)
+		}
 		for st := 0; st < steps; st++ {
 			c := A
 			if x.R.Intn(4) == 0 {
@@ -468,7 +501,7 @@ func ExploreScenario(seed int64, p Profile, x *Explorer) {
 		for round := 1 + x.R.Intn(2); round > 0; round-- {
 			x.sysReset(x.R.Pick("access", "access", "both", "resources"), "test.>")
 			x.internalSteps(x.R.Intn(8))
-			switch x.R.Intn(6) {
+			switch x.R.Intn(7) {
 			case 0, 1:
 				c := cls[x.R.Intn(len(cls))]
 				if !cClosed(x.Run, c) && len(cls) > 1 {
@@ -487,6 +520,12 @@ func ExploreScenario(seed int64, p Profile, x *Explorer) {
 				c := cls[x.R.Intn(len(cls))]
 				if !cClosed(x.Run, c) {
 					x.sendFrame(c, "subscribe", x.R.Intn(p.Resources), "")
+				}
+			case 5:
+				// a request that joins an access check waiting in (or released by) the throttle
+				c := cls[x.R.Intn(len(cls))]
+				if !cClosed(x.Run, c) {
+					x.sendFrame(c, x.R.Pick("call", "call", "get"), x.R.Intn(p.Resources), "set")
 				}
 			}
 			x.settle()
